@@ -18,14 +18,25 @@ def main(tier=None):
     ops, cases, checks = [], 0, []
     for _ in range(300 if c.tier == "quick" else 5000):
         ops += ["reset", "off 0 0", "off 1 5", "off 2 3"]
+        watch = rng.random() < 0.5      # list the stores after every step: a store only moves forward
         sent = [0, 0, 0]  # upper bound on the payloads sent (ops that change nothing queue none: `nosuch` is then answered)
         for _ in range(rng.choice([2, 5, 9, 15])):
             n = rng.choice([0, 0, 1])
             ops.append(distlib.random_local_op(rng, n, bulk_bias=0.2))
             sent[n] += 1
-            # some gossip gets through, most of it is lost
+            if watch:
+                ops.append(f"full {n}")
+            # some gossip gets through (now, or again much later: gossip is retransmitted), most of it is lost
             if rng.random() < 0.3 and sent[n] > 0:
                 ops.append(f"deliver {n} {rng.randrange(sent[n])} {1 - n}")
+                if watch:
+                    ops.append(f"full {1 - n}")
+            if rng.random() < 0.15:
+                m = rng.choice([0, 1])
+                if sent[m] > 0:
+                    ops.append(f"deliver {m} {rng.randrange(sent[m])} {1 - m}")
+                    if watch:
+                        ops.append(f"full {1 - m}")
         mode = rng.choice(["a2b", "b2a", "both", "both"])
         ops += ["full 0", "full 1"]
         base = len(ops) - 2
@@ -67,7 +78,7 @@ def main(tier=None):
                 if {k_: v[3] for k_, v in exp.items()} != {k_: v[3] for k_, v in after.items()}:
                     miss = [v[3] for k_, v in exp.items() if after.get(k_, (None,) * 4)[3] != v[3]]
                     out.append((k, "newer-entry-not-reflected", f"after merging the snapshot these newer entries (additions or removals) are not reflected: {miss[:4]}"))
-        return out
+        return out + distlib.monotone_store(ops_, impl)
     c.run_suite(Suite("snapshot-exchange", "dist", ops, mon, {"cases": cases, "nontrivial": cases}, resets=("reset",)))
     samples.append({"suite": "snapshot-exchange", "ops": ops[:22]})
     c.assumptions += ["tie-free across nodes (distinct clock offsets per node)", "protobuf marshal/unmarshal of the snapshot is a faithful round trip"]
